@@ -161,7 +161,18 @@ def random_jobs(ctx, prop, count):
         if fn in lc.TAKES_START:
             if rng.random() < 0.7:
                 job["start"] = rand_partition(rng, n, labels_pool if rng.random() < 0.5 else None)
+                if rng.random() < 0.3:
+                    job["start_type"] = rng.choice(["float", "int32"])
             job["feedback"] = 1
+        if rng.random() < 0.35:      # integer-typed / Fortran-ordered networks
+            # signed integer types only: (i) the gain expressions subtract entries of W-typed arrays in
+            # place, which wraps around for unsigned types - a numpy pitfall on the caller's side, not
+            # a property of the optimiser; (ii) with float32 data the rounding noise (1e-7) exceeds the
+            # code's 1e-10 move threshold, so "zero" gains trigger moves and the exact reading of the
+            # threshold (DESIGN 3.3) no longer holds - both would be false alarms
+            job["dtype"] = rng.choice(["int", "int32"])
+        if rng.random() < 0.2:
+            job["layout"] = "F"
         jobs.append(job)
     # multi-level structure: rings of small cliques / long cycles make the optimisers aggregate over
     # three or more levels with real merging at every level (random graphs on <= 8 nodes rarely do)
